@@ -8,7 +8,7 @@ for d in sorted(glob.glob("/verif/seeded/*/")):
     note = (m.get("note") or "")
     low = note.lower()
     missed = "missed at first" in low or "would have been missed" in low or "first caught only" in low or "hung" in low
-    tie1 = "alarm only through tie 1" in low or "caught only as a broken correspondence" in low or "reported only as" in low
+    tie1 = "alarm only through tie 1" in low or "caught only as a broken correspondence" in low or "reported only as" in low or "reported only through" in low
     rows.append((name, m.get("property"), ", ".join(m.get("caught_by") or []), "no" if missed else ("tie only" if tie1 else "yes"), note.replace("|", "/")))
 print("| seeded change | property | caught by | caught before strengthening | what it took |")
 print("|---|---|---|---|---|")
